@@ -288,7 +288,7 @@ static void ref_memccpy(const Ctx *x, Ref *r) {        /* memccpy_s(dest,dmax,sr
     if (c->slen == 0) { r->verdict = V_ANY; return; }
     if ((long)c->slen > n) { r_fail(r, ESNOSPC_); return; }
     r->verdict = V_OK; r->has_dest = 1; r->dn = 0;
-    for (size_t i = 0; i < c->slen; i++) { r->dest[i] = SP(x, i); r->dn = i + 1; if (SP(x, i) == (unsigned long)(c->c & 0xff)) break; }
+    for (size_t i = 0; i < c->slen; i++) { r->dest[i] = SP(x, i); r->dn = i + 1; if (SP(x, i) == (unsigned long)(c->c & 0xff)) { r->tail_prior_or_zero = 1; break; } }   /* c is converted to unsigned char, as memccpy does; nothing behind the stop character is copied */
 }
 static void ref_tscmp(const Ctx *x, Ref *r) {          /* timingsafe_bcmp / timingsafe_memcmp */
     long n = NEL(x); int isb = strstr(x->fn->name, "bcmp") != NULL;
